@@ -112,6 +112,55 @@ def build_time_points(rows):
     return candidates, rows_of
 
 
+def outcomes_if_equal_onset_rows_are_permuted(rows, limit=4000):
+    """multisets of reports reachable when the rows (and delayed groups) of each time point may take effect in ANY order
+    (markers of one row keep their order).  Used only to give an order-dependence its own narrow label."""
+    plain = {}
+    delayed = {}
+    for r, (t, markers) in enumerate(rows):
+        blk = [(k, n) for (k, n, d) in markers if d is None]
+        if blk:
+            plain.setdefault(t, []).append(blk)
+        for (k, n, d) in markers:
+            if d is not None:
+                delayed.setdefault(t + d, []).append([(k, n)])
+    states = {(frozenset(), ())}
+    for t in sorted(set(plain) | set(delayed)):
+        blocks = plain.get(t, []) + delayed.get(t, [])
+        keys = [n.casefold() for b in blocks for _, n in b]
+        if len(set(keys)) == len(keys) or len(blocks) == 1:
+            orders = [blocks]
+        else:
+            orders = list(itertools.permutations(blocks)) if len(blocks) <= 6 else [blocks, blocks[::-1]]
+        new_states = set()
+        for opened, reps in states:
+            for order in orders:
+                seq = [m for b in order for m in b]
+                o2 = set(opened)
+                used = set()
+                r2 = list(reps)
+                for kind, name in seq:
+                    key = name.casefold()
+                    if key in used:
+                        r2.append(("dup:" + kind, key))
+                        continue
+                    used.add(key)
+                    if kind == "Onset":
+                        o2.add(key)
+                    elif kind == "Offset":
+                        if key in o2:
+                            o2.discard(key)
+                        else:
+                            r2.append(("offset", key))
+                    elif key not in o2:
+                        r2.append(("inset", key))
+                new_states.add((frozenset(o2), tuple(sorted(r2))))
+        states = new_states
+        if len(states) > limit:
+            return None
+    return {reps for _, reps in states}
+
+
 # ----------------------------------------------------------------------------------------------------------------
 # building the file and reading the issues
 # ----------------------------------------------------------------------------------------------------------------
@@ -230,6 +279,11 @@ def check_case(rows, extras=None, use_sidecar=False):
     if obs_multi not in exp_multis:
         # say which requirement broke
         exp = exp_multis[0]
+        reach = outcomes_if_equal_onset_rows_are_permuted(rows)
+        if reach is not None and tuple(obs_multi) in reach:
+            # correct bookkeeping for SOME order of the rows that share an onset, but not for the file order
+            fails.append(("C10.equal_onset.rows_take_effect_in_file_order", obs_multi, exp))
+            return fails, ambiguous
         o_un = [x for x in obs_multi if not x[0].startswith("dup")]
         e_un = [x for x in exp if not x[0].startswith("dup")]
         if o_un != e_un and not ambiguous:
@@ -281,14 +335,15 @@ def gen_cases(quick):
     full_len = 3 if quick else 4
     for m in seqs(NAMES_FULL, full_len):
         yield ("histories", m, (2,) * (len(m) - 1), None)
-    mid_len = 4 if quick else 5
-    for m in seqs(NAMES_MID, mid_len, minlen=full_len + 1):
+    for m in seqs(NAMES_SMALL, full_len + 1, minlen=full_len + 1):
         yield ("histories", m, (2,) * (len(m) - 1), None)
     # layouts
     lay_len = 3 if quick else 4
     for m in seqs(NAMES_SMALL, lay_len):
         n = len(m)
-        shifts = [0.0, 0.5, 1.0, 2.0, 10.0] if n <= 3 else [0.5, 1.0]
+        if n == lay_len and m[0][1] != NAMES_SMALL[0]:
+            continue        # longest length: first marker spelled 'Aa' (the two spellings are interchangeable)
+        shifts = [0.0, 0.5, 1.0, 2.0, 10.0] if n < lay_len else [0.5, 1.0]
         delays = [None] + [(j, d) for j in range(n) for d in shifts]
         for layout in itertools.product((0, 1, 2), repeat=n - 1):
             for dl in delays:
@@ -352,9 +407,9 @@ def _rows_from_json(j):
 
 def run(w: Workload):
     w.rule = ("histories: every marker sequence (one per row, increasing onsets) over {Onset,Offset,Inset} x "
-              "{Aa,aa,Bb,Cc/1,Cc/2} up to length 3 (quick) / 4, and over {Aa,aa,Cc/1} one longer; layouts: every sequence "
+              "{Aa,aa,Bb,Cc/1,Cc/2} up to length 3 (quick) / 4, and over {Aa,aa} one longer; layouts: every sequence "
               "over {Onset,Offset,Inset} x {Aa,aa} up to length 3 (quick) / 4 x every layout (same row | equal-onset row | "
-              "later row per boundary) x (no Delay | one marker delayed by 0/0.5/1/2/10 s); long: seeded random files of "
+              "later row per boundary) x (no Delay | one marker delayed by 0/0.5/1/2/10 s; at the longest length 0.5/1 s and first name 'Aa'); long: seeded random files of "
               "24-60 rows.  Distinct = distinct (markers, layout, delay).")
     cases = list(gen_cases(w.quick))
     counts = {}
@@ -365,7 +420,7 @@ def run(w: Workload):
     chunks = [cases[i:i + 200] for i in range(0, len(cases), 200)]
     records = []
     amb = 0
-    long_cases = list(gen_long(random.Random(w.seed + 1010), 150 if w.quick else 1500))
+    long_cases = list(gen_long(random.Random(w.seed + 1010), 60 if w.quick else 1000))
     with multiprocessing.Pool(min(14, max(1, multiprocessing.cpu_count() - 2))) as pool:
         for n, a, out in pool.imap(_worker, chunks):
             amb += a
@@ -377,11 +432,12 @@ def run(w: Workload):
     for clause, inp, obs, exp in records:
         w.fail(clause, inp, observed=obs, expected=exp)
     w.part("histories", cases=counts.get("histories", 0),
-           bound="all marker sequences, one marker per row: 15 symbols up to length %d, 9 symbols (Aa,aa,Cc/1) length %d"
+           bound="all marker sequences, one marker per row: 15 symbols up to length %d, 6 symbols (Aa,aa) length %d"
            % ((3, 4) if w.quick else (4, 5)), exhaustive=True)
     w.part("layouts", cases=counts.get("layouts", 0),
            bound="6 symbols ({Onset,Offset,Inset} x {Aa,aa}) up to length %d x 3^(n-1) layouts x (1 + n x shifts) Delay "
-                 "choices (5 shifts up to n=3, 2 shifts for n=4)" % (3 if w.quick else 4), exhaustive=True,
+                 "choices (5 shifts below the longest length, 2 shifts {0.5,1} and first marker 'Aa' at the longest)"
+                 % (3 if w.quick else 4), exhaustive=True,
            order_ambiguous_cases=amb)
     w.part("long", cases=len(long_cases), bound="seeded random files, 24-60 rows, definitions from a sidecar",
            exhaustive=False)
